@@ -14,7 +14,7 @@ LOW = {"x-a": "x-a", "X-A": "x-a", "x-A": "x-a", "x-b": "x-b", "X-B": "x-b", "Co
 DICTS = {"e": [], "a1": [["x-a", "1"]], "A2": [["X-A", "2"]], "a3": [["x-A", "3"]], "b1": [["x-b", "1"]],
          "ab": [["X-A", "4"], ["X-B", "5"]], "cl": [["Content-Length", "0"], ["x-b", "6"]], "ct": [["CONTENT-type", "text/evil"]],
          "ua": [["User-Agent", "ua1"]], "UA": [["user-AGENT", "ua2"], ["x-a", "7"]],
-         "ho": [["Host", "backend.internal"]], "HO": [["hOST", "second.internal"], ["x-b", "8"]]}
+         "ho": [["Host", "backend.internal"]], "HO": [["hOST", "second.internal"], ["x-b", "8"]], "t1": [["x-a", "True"]]}
 
 
 class Boom(Exception):
@@ -24,7 +24,8 @@ class Boom(Exception):
 def mkdict(did, rnd):
     d = {}
     for n, v in DICTS[did]:
-        d[n] = int(v) if v.isdigit() and rnd.random() < 0.4 else v
+        # (values are whatever objects the application has: integers and truth values are sent as their str())
+        d[n] = True if v == "True" else int(v) if v.isdigit() and rnd.random() < 0.6 else v
     return d
 
 
@@ -44,7 +45,10 @@ def run_history(h, peer, rnd, cfg):
     reuse = rnd.random() < 0.7
     init = mkdict(h[0], rnd)
     made.append((h[0], init))
-    proxy = jsonrpc.ServerProxy(peer.url(), headers=init, config=cfg, version=rnd.choice([1.0, 2.0]))
+    url = peer.url()
+    if url.startswith("http://") and rnd.random() < 0.35:
+        url = "http://user%d:secret@" % rnd.randint(0, 9) + url[len("http://"):]       # (credentials: the connection adds Authorization)
+    proxy = jsonrpc.ServerProxy(url, headers=init, config=cfg, version=rnd.choice([1.0, 2.0]))
     tr = proxy("transport")
     cms = []
     ev = []
